@@ -41,7 +41,7 @@ SYSNOTE = ('Quill.tla (implementation-shaped, cut at the QUILL_VERIF yield point
            'the queues behave sequentially consistent under it; unbounded queues are never full in the model')
 CHECKS.update({
  "C03": dict(engine="tlc+h_sys", cat=MC, ref="4 C03",
-   text="Quill.tla checked exhaustively for small configurations (per-action checks of this property, I=>A on every exported behaviour, schedules replayed on the real code with state comparison); plus executions of the real frontend/backend under seeded schedules (several threads, sizes up to the queue capacity, thread exits, flushes, fine-grained backend steps) are validated by TLC against QuillContract (exactly once, per-thread order, completeness at quiescence)",
+   text="Quill.tla checked exhaustively for small configurations (per-action checks of this property, I=>A on every exported behaviour, schedules replayed on the real code with state comparison); plus executions of the real frontend/backend under seeded schedules (several threads, sizes up to the queue capacity, thread exits, flushes, fine-grained backend steps) are validated by TLC against QuillContract (exactly once, per-thread order, completeness at quiescence); the registration of a new thread context under the C++ release/acquire model (flag set / load / clear, registry copy under the lock) is NewCtxRA.tla with the orders and the clear-before-copy order extracted from the code, every transition replayed on the REAL backend thread and REAL first log calls of new threads parked at every access of the flag (h_stop, fine-grained mode)",
    note=SYSNOTE,
    tech="TLA+ contract monitor + TLC trace validation of real executions under a deterministic scheduler"),
  "C05": dict(engine="tlc+h_sys", cat=MC, ref="4 C05",
@@ -165,7 +165,7 @@ man = {"version": 1, "setup_cmd": "cd /verif && ./setup.sh",
            {"name": "h_time", "path": "/verif/harness/h_time.cpp", "serves_properties": ["C13"], "kind_free_text": "real TimestampFormatter under TZ=<zone> with interposed strftime"},
            {"name": "h_named", "path": "/verif/harness/h_named.cpp", "serves_properties": ["C19"], "kind_free_text": "real named-args scanner and end-to-end JSON sink runs"},
            {"name": "h_life", "path": "/verif/harness/h_life.cpp", "serves_properties": ["C07"], "kind_free_text": "forked children running the real backend thread, FileSink and signals"},
-           {"name": "h_stop", "path": "/verif/harness/h_stop.cpp", "serves_properties": ["C06", "C07"], "kind_free_text": "the real backend thread (run loop, _poll, _exit), Backend::stop() and log calls of two real threads on the shim std::atomic (release/acquire model): the backend is parked at every load of its running flag, the script chooses what that load and the writer-position loads of the iteration read"},
+           {"name": "h_stop", "path": "/verif/harness/h_stop.cpp", "serves_properties": ["C03", "C06", "C07"], "kind_free_text": "the real backend thread (run loop, _poll, _exit), Backend::stop() and log calls of two real threads on the shim std::atomic (release/acquire model): the backend is parked at every load of its running flag, the script chooses what that load and the writer-position loads of the iteration read"},
            {"name": "h_lock", "path": "/verif/harness/h_lock.cpp", "serves_properties": ["C17"], "kind_free_text": "real detail::Spinlock on a shim std::atomic implementing the release/acquire model (coroutine threads, one step per atomic access, happens-before race detector)"},
            {"name": "h_remove", "path": "/verif/harness/h_remove.cpp", "serves_properties": ["C17"], "kind_free_text": "real LoggerManager / LoggerBase flags and bounded queue on the shim std::atomic (release/acquire model, script-chosen load values)"},
            {"name": "h_exit", "path": "/verif/harness/h_exit.cpp", "serves_properties": ["C20"], "kind_free_text": "real ThreadContext (_valid flag) and bounded queue on a shim std::atomic implementing the release/acquire model with script-chosen load values"},
